@@ -65,3 +65,20 @@ Definition trap24 : coll_table :=
 Example C05_nonvacuous : check_coll trap01 = true /\ check_coll trap24 = true /\ check_affine trap01 trap24 d0 d0 = true.
 Proof. vm_compute. repeat split. Qed.
 Print Assumptions C05_nonvacuous.
+
+(* (5) the collocation-update switch is a function of the current call only, also when ONE sweeper object is
+   initialised repeatedly (sweeper.__init__(params), as AdaptiveCollocation does) *)
+Theorem C05_check_reinit_sound : forall calls obs, check_reinit calls obs = true ->
+  length obs = length calls /\
+  forall i, (i < length calls)%nat ->
+    let c := nth i calls (true, false) in
+    nth i obs false = upd_flag (fst c) (snd c) /\
+    (fst c = false -> nth i obs false = true) /\
+    (fst c = true -> nth i obs false = snd c).
+Proof. exact check_reinit_sound. Qed.
+Print Assumptions C05_check_reinit_sound.
+
+Theorem C05_reinit_history_independent : forall before1 before2 call,
+  last (reinit_flags (before1 ++ [call])) false = last (reinit_flags (before2 ++ [call])) false.
+Proof. exact reinit_history_independent. Qed.
+Print Assumptions C05_reinit_history_independent.
